@@ -2,6 +2,7 @@
 //! and writes Gallina case files that coqc evaluates against the Coq models and specifications.
 mod astdump;
 mod c01;
+mod c04;
 mod c05;
 mod c06;
 mod c07;
@@ -75,6 +76,7 @@ fn main() {
         "c14" => meta::generate_c14(a.seed, a.n, a.thorough).write(&a.out, a.shards, a.only),
         "c15" => c15::generate(a.seed, a.n, a.thorough).write(&a.out, a.shards, a.only),
         "c01" => c01::generate(a.seed, a.n, a.thorough).write(&a.out, a.shards, a.only),
+        "c04" => c04::generate(a.seed, a.n, a.thorough).write(&a.out, a.shards, a.only),
         "c05" => c05::generate(a.seed, a.n, a.thorough).write(&a.out, a.shards, a.only),
         "c06" => c06::generate(a.seed, a.n, a.thorough).write(&a.out, a.shards, a.only),
         "c16" => c16::generate(a.seed, a.n, a.thorough).write(&a.out, a.shards, a.only),
